@@ -366,12 +366,6 @@ theorem persistRegistry_fields (s : State) :
   · obtain ⟨h1, h2, _, h4, h5, h6⟩ := metaPut_fields { s with extRegistry := s.registry }
     exact ⟨h1, h2, h4, fun hok => (h5 hok).1, h6⟩
 
-/-- the map `store_api_key` tries to install -/
-def storeTarget (s : State) (name : String) (v : Option String) : List (String × String) :=
-  match v with
-  | some k => setKey s.bound name k
-  | none => eraseKey s.bound name
-
 theorem storeApiKey_fields (s : State) (name : String) (v : Option String) :
     ((storeApiKey s name v).2 = true →
         (storeApiKey s name v).1.bound = storeTarget s name v ∧
@@ -383,19 +377,16 @@ theorem storeApiKey_fields (s : State) (name : String) (v : Option String) :
         (storeApiKey s name v).1.durableBound = storeTarget s name v) ∧
     SameShape s (storeApiKey s name v).1 := by
   unfold storeApiKey
-  have hp := persistKeys_fields { s with bound := storeTarget s name v }
-  simp only [storeTarget] at hp ⊢
-  obtain ⟨h1, h2, h3, h4, h5⟩ := hp
-  split
-  · rename_i s' heq
-    rw [heq] at h1 h2 h3 h4 h5
-    simp only at h1 h2 h3 h4 h5
-    have := h4 rfl
-    exact ⟨fun _ => ⟨h1, this.1, this.2⟩, fun h => by cases h, h2, h3, h5⟩
-  · rename_i s' heq
-    rw [heq] at h1 h2 h3 h4 h5
-    simp only at h1 h2 h3 h4 h5
-    exact ⟨fun h => by cases h, fun _ => rfl, h2, h3, h5⟩
+  obtain ⟨h1, h2, h3, h4, h5⟩ := persistKeys_fields { s with bound := storeTarget s name v }
+  simp only at h1 h2 h3 h4 h5 ⊢
+  cases hr : (persistKeys { s with bound := storeTarget s name v }).2 with
+  | true =>
+    have := h4 hr
+    simp only [if_true]
+    exact ⟨fun _ => ⟨h1, this.1, this.2⟩, (fun h => by cases h), h2, h3, h5⟩
+  | false =>
+    simp only [Bool.false_eq_true, if_false]
+    exact ⟨(fun h => by cases h), fun _ => rfl, h2, h3, h5⟩
 
 theorem storeApiKey_ro (s : State) (name : String) (v : Option String) (h : s.primaryRO = true) :
     (storeApiKey s name v).1.bound = s.bound ∧ (storeApiKey s name v).2 = false := by
@@ -456,19 +447,20 @@ theorem rpc_database_not_removed (cfg : Cfg) (s : State) (n : String) (r : Reque
 
 theorem registerDb_not_removed (cfg : Cfg) (s : State) (mode : OpenMode) (n : String) (k : Option String) (b : Bool) :
     (registerDb cfg s mode n k).2 ≠ .ok (.removed b) := by
-  cases k <;> unfold registerDb <;> simp only <;> repeat' split
+  cases k <;> unfold registerDb <;> dsimp only <;> repeat' split
   all_goals (intro h; cases h)
 
 theorem closeDb_not_removed (cfg : Cfg) (s : State) (n : String) (b : Bool) :
     (closeDb cfg s n).2 ≠ .ok (.removed b) := by
   unfold closeDb
+  dsimp only
   repeat' split
   all_goals (intro h; cases h)
 
 theorem setDbApiKey_not_removed (cfg : Cfg) (s : State) (n : String) (k : Option String) (f : String) (b : Bool) :
     (setDbApiKey cfg s n k f).2 ≠ .ok (.removed b) := by
   unfold setDbApiKey
-  simp only
+  dsimp only
   repeat' split
   all_goals (intro h; cases h)
 
@@ -511,10 +503,13 @@ theorem removeDbApiKey_unbinds (s s' : State) (n : String) (b : Bool)
     · rename_i hl
       cases h
       exact hl
-    · split at h
-      · cases h
-      · cases h
+    · dsimp only at h
+      split at h
+      · rename_i hok
+        cases h
+        rw [((storeApiKey_fields s n none).1 hok).1]
         exact lookup_eraseKey_self _ _
+      · cases h
 
 /-! ## persistence failures roll back -/
 
